@@ -1,6 +1,6 @@
 (* C02 -- set operators group left to right, consecutive identical UNIONs merge, trailing clauses attach to the whole. *)
-From Coq Require Import List String Bool.
-From MoSql Require Import Base.Json Model.Clause Proofs.ClauseProofs.
+From Coq Require Import List String Bool ZArith.
+From MoSql Require Import Base.Json Model.Clause Proofs.ClauseProofs Model.Scrub Model.ScrubAtoms Proofs.ClauseKeys.
 Import ListNotations.
 Open Scope string_scope.
 Open Scope list_scope.
@@ -24,3 +24,29 @@ Proof. intros. unfold with_tail. rewrite to_union_is_spec. reflexivity. Qed.
    every source written is in the list once, in the order written, for runs of any length *)
 Theorem C02_from_sources_in_order : forall t0 runs, from_list t0 runs = t0 :: List.concat (map (fun r => fst r :: snd r) runs).
 Proof. exact from_list_spec. Qed.
+
+(* clause placement at the last stage (utils.scrub), under any calls= callback and fmap: a query assembled as a dictionary (to_query, the select
+   dictionary) or as a result with named tokens becomes a JSON object whose keys are exactly the clauses that hold something, in the order in which
+   they were assembled, and each key holds exactly what scrub makes of that clause's own items *)
+Theorem C02_clause_keys_of_dictionary : forall m fm kvs, exists d ps,
+  scrub_s m fm (RDict kvs) = Some (JDict d, ps) /\ keys d = keys (filter (fun kv => alive m fm (snd kv)) kvs).
+Proof. exact dict_keys. Qed.
+
+Theorem C02_clause_items_of_dictionary : forall m fm kvs k x r, In (k, x) kvs -> scrub_s m fm x = Some r ->
+  exists d ps, scrub_s m fm (RDict kvs) = Some (JDict d, ps) /\ In (k, fst r) d.
+Proof. exact dict_items. Qed.
+
+Theorem C02_clause_keys_of_named_result : forall m fm named flat v ps,
+  existsb (live m fm) named = true -> scrub_s m fm (RPR true named flat) = Some (v, ps) ->
+  exists d, v = JDict d /\ keys d = keys (filter (live m fm) named).
+Proof. exact clause_keys. Qed.
+
+Theorem C02_clause_items_of_named_result : forall m fm named flat v ps k vs r,
+  scrub_s m fm (RPR true named flat) = Some (v, ps) -> In (k, vs) named -> clause_value m fm vs = Some r ->
+  exists d, v = JDict d /\ In (k, fst r) d.
+Proof. exact clause_items. Qed.
+
+Example C02_clause_premise_satisfiable :
+  let q := RDict [("select", RPR true [] [RStr "a"]); ("from", RStr "t"); ("where", RPR false [] []); ("limit", RInt 0%Z)] in
+  scrub_s MSimple [] q = Some (JDict [("select", JStr "a"); ("from", JStr "t"); ("limit", JInt 0%Z)], []).
+Proof. vm_compute. reflexivity. Qed.
